@@ -233,7 +233,16 @@ fn text(r: &mut StdRng, out: &mut Out, n: usize) {
         let text = nm.to_string();
         let back = match text.parse::<Box<Name>>() { Ok(b) => json!({"out": "ok", "name": b.wire_repr().to_vec()}), Err(_) => json!({"out": "err"}) };
         let mut pre_panic = false;
-        let w2 = if let Some(b) = forced_b { b } else if r.gen_bool(0.08) {
+        let w2 = if let Some(b) = forced_b { b } else if r.gen_bool(0.03) && w.len() > 1 && (w[0] as usize) < 60 {
+            // b = a with NUL octets appended to its first label: another label, however it is padded
+            let l = w[0] as usize;
+            let k = r.gen_range(1..=3usize.min(63 - l));
+            let mut v = vec![(l + k) as u8];
+            v.extend_from_slice(&w[1..1 + l]);
+            v.extend(std::iter::repeat(0u8).take(k));
+            v.extend_from_slice(&w[1 + l..]);
+            if v.len() <= 255 { v } else { gen_name(r) }
+        } else if r.gen_bool(0.08) {
             // differs from a only in bit 5 of octets that are not letters
             bit5_variant(r, &w)
         } else if r.gen_bool(0.4) {
